@@ -11,7 +11,10 @@ Phases (all bounded by counts, seeded from ctx.seed):
   C  every artifact is executed once more alone for triage; findings are keyed by sanitizer kind + first libksi frame,
      de-duplicated, the smallest witness per key is kept as the replay file.
   D  the inputs libFuzzer added to the corpus are put through the phase A driver (leak accounting, both pool modes).
-  E  (thorough) valgrind memcheck over a sample of the final corpus on the uninstrumented build.
+  E  (thorough) valgrind memcheck over a sample of the final corpus on the uninstrumented build (invalid read/write/free
+     are findings; uninitialised-value reports are only counted, the property does not name them).
+Sizes: quick 16 x 15 000 new inputs (+ seed loading, about 300 000 executions); thorough 16 x 250 000 new inputs.
+Environment overrides for experiments: C12_NEW_PER_JOB, C12_REPLAY_CAP.
 """
 import os, re, glob, hashlib, shutil, struct, time
 from vlib import core
@@ -477,7 +480,7 @@ def run(ctx):
     tA = time.time() - t0
 
     # ---- phase B
-    new_budget = (15000 if quick else 400000)
+    new_budget = (15000 if quick else 250000)
     new_budget = int(os.environ.get('C12_NEW_PER_JOB', new_budget))
     os.makedirs(os.path.join(ctx.work, 'art'), exist_ok=True)
     jobs = ctx.parallel(list(range(JOBS)), lambda j: fuzz_job(ctx, exe['fuzz'], j, new_budget, load_dir, nseeds, blockfile, pre_mask,
